@@ -1384,3 +1384,11 @@ package gedcom
 //@   only C11 C10
 //@   trusted
 //@   pure
+
+// C17: IsLiving as an abstract, deterministic test of the individual.
+//@ ghost func livingOf(i int) bool
+//@ func IndividualNode.IsLiving
+//@   only C17
+//@   trusted
+//@   pure
+//@   ensures result == (node != nil && livingOf(node))
